@@ -89,7 +89,7 @@ def build_case(rng, i):
 
 def run(rep, work, rng, tier):
     common.proof_part(rep, 'C01')
-    n = 300 if tier == 'quick' else 8000
+    n = 300 if tier == 'quick' else 30000
     cases = [('kf_' + k['signature'], k['replay']) for k in rep.kf]; kinds = {}
     for i in range(n):
         cid, lines, ks = build_case(rng, i); cases.append((cid, lines))
